@@ -661,3 +661,69 @@ Proof.
   intros A S. pose proof (claimable_nonneg f A S). destruct S as [_ CV].
   destruct A as [[_ _ _ _ _ _ (Hd & _)] _ _]. nia.
 Qed.
+
+(** ------------------------------------------------------------------ everything together *)
+Definition FarmOK (f : farm) : Prop := FarmAcc f /\ Solv f /\ 0 <= don f.
+
+Lemma fstep_ok f op f' o : fstep f op = Ok (f', o) -> FarmOK f -> valid_op op ->
+  FarmOK f' /\ don f' = don f + donated op /\ f_rps f <= f_rps f'.
+Proof.
+  intros E (A & S & D) V. pose proof (fstep_acc _ _ _ _ E A V) as (A' & D' & R').
+  assert (0 <= donated op).
+  { destruct op; simpl; try lia. simpl in E. destruct (0 <? amt) eqn:Ea; [apply Z.ltb_lt in Ea; lia | discriminate]. }
+  split; [|split; assumption]. split; [exact A'|]. split; [eapply fstep_solv; eauto | lia].
+Qed.
+
+Lemma init_farm_ok dsc same : 0 < dsc -> FarmOK (init_farm dsc same).
+Proof. intros. split; [apply init_farm_acc; assumption|]. split; [apply init_farm_solv | unfold don; simpl; lia]. Qed.
+
+Lemma frun_ok ops : forall f, FarmOK f -> Forall valid_op ops -> FarmOK (frun f ops).
+Proof.
+  induction ops as [|op t IH]; intros f K V; simpl; [exact K|].
+  inversion V; subst. apply IH; [|assumption].
+  unfold fstep_total. destruct (fstep f op) as [[f' o]|] eqn:E; [|exact K].
+  apply fstep_ok in E; auto. tauto.
+Qed.
+
+(** an outstanding position's share of [claimable] *)
+Lemma position_claimable f n a : FarmAcc f -> Solv f -> find_attrs (f_attrs f) n = Some a ->
+  outst f n * (f_rps f - a_rps a) <= claimable f.
+Proof.
+  intros [[_ (ND & _ & NN & _) _ _ _ _ _] _ _] [[has _] _] Ha. unfold claimable, outst.
+  assert (G : forall l, NoDup (akeys l) -> all_nonneg l -> (forall k, In k (akeys l) -> 0 <= f_rps f - rps_of f k) ->
+              aget l n * (f_rps f - rps_of f n) <= wsum (fun k => f_rps f - rps_of f k) l).
+  { clear. induction l as [|[k v] t IH]; simpl; intros ND NN Hw; [lia|].
+    inversion ND; subst. inversion NN; subst. simpl in *.
+    assert (0 <= wsum (fun k0 => f_rps f - rps_of f k0) t) by (apply wsum_nonneg; auto).
+    pose proof (Hw k (or_introl eq_refl)).
+    destruct (k =? n) eqn:E.
+    - apply Z.eqb_eq in E. subst. lia.
+    - specialize (IH H2 H4 (fun k' Hk => Hw k' (or_intror Hk))). nia. }
+  specialize (G (f_out f) ND NN).
+  assert (Hw : forall k, In k (akeys (f_out f)) -> 0 <= f_rps f - rps_of f k).
+  { intros k Hk. destruct (has k Hk) as (ak & Hak & Hrk). unfold rps_of. rewrite Hak. lia. }
+  specialize (G Hw). unfold rps_of at 1 in G. rewrite Ha in G. exact G.
+Qed.
+
+(** no legitimate claim/exit fails on the reward counters: the reserve and the farm's balance cover
+    the floor-rounded base reward of any part of any outstanding position plus any boosted payout
+    within the pools *)
+Lemma reward_payable f n x a base b : FarmOK f ->
+  find_attrs (f_attrs f) n = Some a -> 0 < x <= outst f n ->
+  base_reward f a x = Ok base -> 0 <= b <= f_pool f ->
+  is_ok (pay_reward f (base + b) b) = true.
+Proof.
+  intros (A & S & D) Ha Hx Hb Hbp.
+  pose proof (position_claimable f n a A S Ha) as Hpc.
+  assert (Hin : In n (akeys (f_out f))).
+  { apply aget_pos_in. unfold outst in Hx. lia. }
+  pose proof S as [[has _] CV]. destruct (has n Hin) as (a' & Ha' & Hr). assert (a' = a) by congruence. subst a'.
+  pose proof A as [[acc _ _ _ _ _ (Hd & _)] _ _].
+  apply base_reward_bound in Hb; auto; [|lia]. destruct Hb as [Hb0 Hbb].
+  assert (Hres : base + b <= f_reserve f) by nia.
+  unfold don in D. unfold pay_reward, sub_chk.
+  destruct (0 <=? b) eqn:E0; [|apply Z.leb_gt in E0; lia].
+  destruct (f_reserve f <? base + b) eqn:E1; [apply Z.ltb_lt in E1; lia|]. simpl.
+  destruct (f_pool f <? b) eqn:E2; [apply Z.ltb_lt in E2; lia|]. simpl.
+  destruct (f_bal_rew f <? base + b) eqn:E3; [apply Z.ltb_lt in E3; lia|]. reflexivity.
+Qed.
